@@ -56,15 +56,15 @@ theorem C18_read_only_no_conflict (xs ys : List Step) (hx : readOnly xs) (hy : r
     may make: to the decoded message of this very call (`alert`, `ID` point into the FeedMessage
     unmarshalled inside ParseRealtime), to the extension's deduplication table (`e`), which is a
     fresh per-message instance (`parseRealtimeUsesForMessage`), and to `opts`, which at that point
-    is the local copy (`parseRealtimeWritesOnlyToCopy`). Keyed by package, the type written through and the
+    is the local copy (`parseRealtimeWritesOnlyToCopy`). Keyed by package, the type written through (pointer or not) and the
     path, not by function or parameter name: moving an assignment into a helper of the same package is no change. -/
 def allowedSharedWrites : List String := [
-  "extensions/nyctalerts: *proto.Alert: .Cause",
-  "extensions/nyctalerts: *proto.Alert: .DescriptionText",
-  "extensions/nyctalerts: *proto.Alert: .Effect",
-  "extensions/nyctalerts: *string: *",
+  "extensions/nyctalerts: proto.Alert: .Cause",
+  "extensions/nyctalerts: proto.Alert: .DescriptionText",
+  "extensions/nyctalerts: proto.Alert: .Effect",
+  "extensions/nyctalerts: string: *",
   "extensions/nyctalerts: nyctalerts.extension: .elevatorAlerts[]",
-  "gtfs: *gtfs.ParseRealtimeOptions: .Extension"]
+  "gtfs: gtfs.ParseRealtimeOptions: .Extension"]
 
 /-- **no parse call writes state shared with another call**: no package-level variable is ever
     assigned, the writes through parameters are the allowed ones, the options are copied first and
